@@ -142,6 +142,9 @@ func cmdCSem(c *ctx) {
 		if hasSwzOfCompound(m) {
 			tag += " swzcomp"
 		}
+		if hasPackOperand(m) {
+			tag += " packop"
+		}
 		c.line("tags.txt", knob+" "+tag)
 		if c.stats["shrunk"] < 10 {
 			if d == nil {
